@@ -21,6 +21,7 @@ type Contract struct {
 	Props       []string
 	Impls       []string
 	InlineKnown bool
+	Kinds       map[string]bool
 	Trusted     bool
 	Modifies    []string
 	Lemma       bool
@@ -360,6 +361,16 @@ func (db *SpecDB) readFile(prog *ssa.Program, p *packages.Package, spkg *ssa.Pac
 			case "trusted":
 				if con != nil {
 					con.Trusted = true
+				}
+			case "kinds":
+				// kinds a,b: only these obligation kinds are generated for this unit
+				if con != nil {
+					con.Kinds = map[string]bool{}
+					for _, k := range dir[1:] {
+						for _, kk := range strings.Split(k, ",") {
+							con.Kinds[kk] = true
+						}
+					}
 				}
 			case "inline-known":
 				if con != nil {
